@@ -17,6 +17,7 @@ type sockWorld struct {
 	ft   *fakeTransport
 	sock Socket
 	log  []logEnt
+	preFlush func() // runs in the first 'flush' listener, before the event is recorded
 }
 
 type logEnt struct {
@@ -41,7 +42,12 @@ func newSockWorld(tn string, eio string) *sockWorld {
 	w.ft.sent = nil
 	w.ft.onSend = func(_ *fakeTransport, b []*packet.Packet) { w.log = append(w.log, logEnt{kind: "send", batch: b}) }
 	w.sock.On("packetCreate", func(a ...any) { w.log = append(w.log, logEnt{kind: "packetCreate", pkt: a[0].(*packet.Packet)}) })
-	w.sock.On("flush", func(a ...any) { w.log = append(w.log, logEnt{kind: "flush", batch: a[0].([]*packet.Packet)}) })
+	w.sock.On("flush", func(a ...any) {
+		if w.preFlush != nil {
+			w.preFlush()
+		}
+		w.log = append(w.log, logEnt{kind: "flush", batch: a[0].([]*packet.Packet)})
+	})
 	w.sock.On("drain", func(a ...any) { w.log = append(w.log, logEnt{kind: "drain"}) })
 	w.sock.On("close", func(a ...any) { w.log = append(w.log, logEnt{kind: "close"}) })
 	ps.On("flush", func(a ...any) { w.log = append(w.log, logEnt{kind: "sflush", batch: a[1].([]*packet.Packet)}) })
@@ -251,4 +257,37 @@ func VerifH_C18_reentrant() {
 	w.ft.OnClose()
 	verif.Assert(fired, "the listener ran")
 	verif.Assert(w.sock.ReadyState() == "closed", "the script ran to its end")
+}
+
+// VerifH_C18_stray_drain: a transport drain that belongs to no application batch (noop /
+// close packet written by the transport itself) arrives while the 'flush' listeners of a
+// hand-off are running: the callbacks of that batch must not run before its flush event.
+func VerifH_C18_stray_drain() {
+	w := newSockWorld(transports.WEBSOCKET, "4")
+	w.preFlush = func() { verif.Yield("flush listener") }
+	verif.Event("stray drain", func() { w.ft.Emit("drain") })
+	nsend := verif.Choose(2) + 1
+	var batch []refSend
+	// first send goes out at once (its own batch); make the transport busy so that the next sends are buffered
+	w.send(100, false)
+	for i := 0; i < nsend; i++ {
+		data := w.send(i, verif.Bool())
+		_ = data
+	}
+	_ = batch
+	mark := len(w.log)
+	verif.InjectBudget(1)
+	w.ft.complete() // drain of the first batch, then the buffered sends are handed over
+	verif.InjectBudget(0)
+	lg := w.log[mark:]
+	fl := -1
+	for i, e := range lg {
+		if e.kind == "flush" && fl < 0 {
+			fl = i
+		}
+		if e.kind == "cb" {
+			verif.Assert(fl >= 0 && i > fl, "a send callback never runs before the flush event of its batch")
+		}
+	}
+	verif.Assert(fl >= 0, "the buffered packets were handed over")
 }
